@@ -57,13 +57,24 @@ func (g *gen) block(n int) string {
 	return "{\n" + progen.Indent(s) + "}"
 }
 
+// expr: a value for a declaration or an assignment. A string value mentions at most one
+// variable: concatenations of two variables assigned back inside nested loops double the
+// string at every execution and reached half a gigabyte (thorough tier), which the time
+// budget then reported as a program that does not terminate.
+func (g *gen) expr(typ string) string {
+	if typ == "string" {
+		return "(" + g.StrExpr(0) + " + " + g.OneOf("str-suffix", `"a"`, `"ab"`, `""`, `"é"`) + ")"
+	}
+	return g.Expr(typ, 2)
+}
+
 func (g *gen) declLocal() string {
 	name := g.Local("v")
 	typ := "int"
 	if g.Chance(1, 6, "local-type") {
 		typ = g.OneOf("local-typ", "bool", "string")
 	}
-	e := g.Expr(typ, 2)
+	e := g.expr(typ)
 	g.Declare(progen.Var{Name: name, Type: typ})
 	s := ""
 	if g.Bool("decl-form") {
@@ -100,7 +111,7 @@ func (g *gen) assign() string {
 			return v.Name + "--\n"
 		}
 	case "bool", "string":
-		return fmt.Sprintf("%s = %s\n", v.Name, g.Expr(v.Type, 2))
+		return fmt.Sprintf("%s = %s\n", v.Name, g.expr(v.Type))
 	}
 	return g.Record() + "\n"
 }
